@@ -355,6 +355,9 @@ class Scheduler:
         self.files = {}
         self.exited = {}
         self.order = []            # names in the order steps were granted
+        self.timeouts = []         # (name, 'pending'|'step'): Python-side waits that gave up on a LIVE process;
+                                   # pending_one()/step() then return None/'' exactly as for an exited process,
+                                   # so a caller that needs to tell the two apart checks this list (or alive())
 
     # context manager sugar
     def __enter__(self):
@@ -409,6 +412,7 @@ class Scheduler:
             if not self.alive(name) and self._read_req(name) is None:
                 return None
             if time.time() - t0 > timeout:
+                self.timeouts.append((name, "pending"))
                 return None
             time.sleep(0.0003)
 
@@ -441,6 +445,7 @@ class Scheduler:
                 lines = self._done_lines(name)
                 return lines[n0] if len(lines) > n0 else ""
             if time.time() - t0 > self.timeout:
+                self.timeouts.append((name, "step"))
                 return ""
             time.sleep(0.0003)
 
